@@ -828,6 +828,8 @@ def wSolveFull {σ V} (W : Wrapped σ V) (o : Opts) (start stop : Option Loc) (w
 
 /-- The generated Python class over the same storage: passes never raise, hooks are `pass`. -/
 def toInterp {σ V} (W : Wrapped σ V) : Interp σ V where
+  lags := W.lags
+  leads := W.leads
   check u t := W.pyCheck u (normT W.ncols t + 1).toNat
   allFinite := W.allFinite
   close := W.close
@@ -893,6 +895,8 @@ def pyCopy {F} (g : F) (rows : List Nat) (t off : Int) (s : Mat F) : Mat F :=
 /-- The generated Python class as an M1 interpretation (periods addressed with Python's index semantics, so an
     infeasible period wraps around or raises IndexError as NumPy does). -/
 def pyInterp {F} (o : RealOps F) (S : Spec F) : Interp (Mat F) (List F) where
+  lags := S.lags
+  leads := S.leads
   check u t := S.conv.map fun r => (u.pyGet (o.ofInt 0) r t).getD (o.ofInt 0)
   allFinite := finiteVec o
   close := closeVec o S.tol
